@@ -26,12 +26,14 @@ PD, PF, PC = R.P_DONE, R.P_FAILED, R.P_CANCELED
 DEVS = ['DevFinalRaise', 'DevPilotCbAll', 'DevPilotCbCanceled', 'DevPBatchFirst', 'DevPFinalRaise',
         'DevRemovedUnwatched', 'DevApplyNoRecheck', 'DevApplyOverCanceled', 'DevLoopAborts',
         'DevAddLastWatched', 'DevAnnounceUnapplied', 'DevWaitExtendsFinal', 'DevInfoMerge',
-        'DevSubmitOtherLock']
+        'DevSubmitOtherLock', 'DevRegisterWipes', 'DevBulkOverwrites']
 
 INV_C06 = ['Monotone', 'AtMostOnce', 'GapsFilled', 'BatchIsolation', 'CbAgrees', 'TablesUntouched']
 INV_C13 = ['OwnFail', 'OthersKeep']
 INV_C14 = ['PMonotone', 'PGapsFilled', 'PFinalNotLeft', 'UnknownIgnored']
-INVARIANTS = ['TypeOK'] + INV_C06 + INV_C13 + INV_C14 + ['PBatchComplete']
+INVARIANTS = ['TypeOK'] + INV_C06 + INV_C13 + INV_C14 + ['PBatchComplete', 'EveryCallback']
+# bulk dispatch announces where a task stands after a batch, not the way there
+INV_BULK   = [i if i != 'GapsFilled' else 'GapsFilledBulk' for i in INVARIANTS]
 PROPERTIES = ['FinalSticky', 'PFinalNotLeftAct']
 
 WORKERS = 8
@@ -39,8 +41,8 @@ WORKERS = 8
 
 def _scen(NT=NT, NP=NP, tasks=('t1', 't2'), unk=(), pilots=(), punk=(), ptypes=('pilot',),
           mb=1, mpb=0, bindat=R.BIND_AT, early=False, direct=False, remove=False,
-          race=False, lateadd=False, services=(), api=False, latesubmit=False):
-    return dict(NT=NT, NP=NP, tasks=tasks, unk=unk, pilots=pilots, punk=punk, ptypes=ptypes,
+          race=False, lateadd=False, services=(), api=False, latesubmit=False, cbs=(), bulk=False):
+    return dict(cbs=cbs, bulk=bulk, NT=NT, NP=NP, tasks=tasks, unk=unk, pilots=pilots, punk=punk, ptypes=ptypes,
                 mb=mb, mpb=mpb, bindat=bindat, early=early, direct=direct, remove=remove,
                 race=race, lateadd=lateadd, services=services, api=api, latesubmit=latesubmit)
 
@@ -52,6 +54,10 @@ SCENARIOS = {
     'tasks-t' : _scen(NT=15, tasks=('t1', 't2'), unk=('tx',), mb=2),
     # C06: application calls and service info between the batches; t2 is a service
     'api-q'   : _scen(NT=3,  tasks=('t1', 't2'), unk=('tx',), mb=2, services=('t2',), api=True),
+    # C06: two application callbacks registered / unregistered per scope between the
+    # batches, per state and bulk dispatch
+    'cbs-q'   : _scen(NT=1,  tasks=('t1', 't2'), mb=1, cbs=('A', 'B')),
+    'cbs-b'   : _scen(NT=1,  tasks=('t1', 't2'), mb=2, cbs=('A',), bulk=True),
     # C13: tasks in the middle of their submission when a pilot ends
     'submit-q': _scen(NT=2, NP=2, tasks=('t1', 't2'), pilots=('p1', 'p2'), mb=1, bindat=1,
                       early=True, direct=True, latesubmit=True),
@@ -88,7 +94,10 @@ SCENARIOS = {
 # instances with the real state chains, simulated to obtain behaviours
 SIM = {
     'sim-tasks' : _scen(tasks=('t1', 't2', 't3'), unk=('tx',), pilots=('p1', 'p2'), mb=4,
-                        early=True, direct=True, remove=True, race=True, services=('t3',), api=True),
+                        early=True, direct=True, remove=True, race=True, services=('t3',), api=True,
+                        cbs=('A', 'B')),
+    'sim-bulk'  : _scen(tasks=('t1', 't2', 't3'), unk=('tx',), mb=4, services=('t3',), api=True,
+                        cbs=('A', 'B'), bulk=True),
     'sim-pilots': _scen(tasks=('t1', 't2'), pilots=('p1', 'p2'), punk=('px',),
                         ptypes=('pilot', 'task', 'none'), mb=2, mpb=3, early=True, remove=True),
     'sim-all'   : _scen(tasks=('t1', 't2', 't3'), unk=('tx',), pilots=('p1', 'p2', 'p3'), punk=('px',),
@@ -97,7 +106,8 @@ SIM = {
 }
 
 PLAN = {   # property -> (exhaustive scenarios quick / thorough only, simulated instances)
-    'C06': (['tasks-q', 'race-q', 'api-q'],  ['tasks-t', 'race-t'],  ['sim-tasks']),
+    'C06': (['tasks-q', 'race-q', 'api-q', 'cbs-q', 'cbs-b'],  ['tasks-t', 'race-t'],
+            ['sim-tasks', 'sim-bulk']),
     'C13': (['death-q', 'chain-q', 'submit-q'],  ['death-t', 'chain-t', 'race-t', 'add-t'],  ['sim-all']),
     'C14': (['pilots-q'], ['pilots-t'], ['sim-pilots']),
 }
@@ -111,7 +121,9 @@ DEVIATIONS = {
             ('DevApplyOverCanceled', 'race-q', [], ['FinalSticky'],    'FinalSticky'),
             ('DevAnnounceUnapplied', 'race-q', ['CbAgrees'], [],       'CbAgrees'),
             ('DevWaitExtendsFinal',  'api-q',  ['TablesUntouched'], [], 'TablesUntouched'),
-            ('DevInfoMerge',         'api-q',  ['BatchIsolation'], [],  'BatchIsolation')],
+            ('DevInfoMerge',         'api-q',  ['BatchIsolation'], [],  'BatchIsolation'),
+            ('DevRegisterWipes',     'cbs-q',  ['EveryCallback'], [],   'EveryCallback'),
+            ('DevBulkOverwrites',    'cbs-b',  ['EveryCallback'], [],   'EveryCallback')],
     'C13': [('DevPilotCbAll',      'death-q',  INV_C13, [], 'OthersKeep'),
             ('DevPilotCbCanceled', 'death-q',  INV_C13, [], 'OthersKeep'),
             ('DevRemovedUnwatched', 'chain-q', INV_C13, [], 'OwnFail'),
@@ -140,12 +152,13 @@ def cfg_constants(sc, devs=()):
     c = ('CONSTANTS\n NT = %d\n NP = %d\n Tasks = %s\n UnknownTasks = %s\n Pilots = %s\n'
          ' UnknownPilots = %s\n PTypes = %s\n MaxBatch = %d\n MaxPBatch = %d\n BindAt = %d\n'
          ' EarlyBind = %s\n DirectFinal = %s\n AllowRemove = %s\n Race = %s\n LateAdd = %s\n'
-         ' Services = %s\n Api = %s\n LateSubmit = %s\n'
+         ' Services = %s\n Api = %s\n LateSubmit = %s\n Cbs = %s\n Bulk = %s\n'
          % (sc['NT'], sc['NP'], _set(sc['tasks']), _set(sc['unk']), _set(sc['pilots']),
             _set(sc['punk']), _set(sc['ptypes']), sc['mb'], sc['mpb'], sc['bindat'],
             _bool(sc['early']), _bool(sc['direct']), _bool(sc['remove']),
             _bool(sc['race']), _bool(sc['lateadd']),
-            _set(sc['services']), _bool(sc['api']), _bool(sc['latesubmit'])))
+            _set(sc['services']), _bool(sc['api']), _bool(sc['latesubmit']),
+            _set(sc['cbs']), _bool(sc['bulk'])))
     for d in DEVS:
         c += ' %s = %s\n' % (d, _bool(d in devs))
     return c
@@ -153,7 +166,7 @@ def cfg_constants(sc, devs=()):
 
 def mc_files(sc, devs=(), invariants=None, props=None):
     cfg = cfg_constants(sc, devs) + 'SPECIFICATION Spec\nCHECK_DEADLOCK FALSE\n'
-    for i in (INVARIANTS if invariants is None else invariants):
+    for i in ((INV_BULK if sc['bulk'] else INVARIANTS) if invariants is None else invariants):
         cfg += 'INVARIANT %s\n' % i
     for p in (PROPERTIES if props is None else props):
         cfg += 'PROPERTY %s\n' % p
@@ -171,6 +184,7 @@ Kinds == IF dying # None THEN {"N", "A", "E"}          \* a pilot callback is in
          ELSE (IF Race THEN {"NB"} ELSE {}) \cup {"N", "B"} \cup (IF DirectFinal THEN {"F"} ELSE {}) \cup (IF MaxPBatch > 0 THEN {"P"} ELSE {})
               \cup (IF AllowRemove THEN {"R"} ELSE {}) \cup (IF Race THEN {"S", "U"} ELSE {})
               \cup (IF LateAdd THEN {"G"} ELSE {}) \cup (IF Api THEN {"Q", "I"} ELSE {})
+              \cup (IF Cbs # {} THEN {"CR", "CU"} ELSE {})
 \* random batches (simulation only): one successor per batch length
 RandT(k) == [i \in 1 .. k |-> RandomElement(TEntries)]
 RandP(k) == [i \in 1 .. k |-> RandomElement(PEntries)]
@@ -194,6 +208,10 @@ SimNext ==
         \/ NApply  /\ last' = <<"napply", plan[1]>>
         \/ NToFire /\ last' = <<"ntofire">>
         \/ NFire   /\ last' = <<"nfire">>
+  \/ /\ pick = "CR" /\ pick' = "none"
+     /\ \E c \in Cbs, sc \in Tasks \cup {"*"} : CbRegister(c, sc) /\ last' = <<"cbreg", c, sc>>
+  \/ /\ pick = "CU" /\ pick' = "none"
+     /\ \E c \in Cbs, sc \in Tasks \cup {"*"} : CbUnregister(c, sc) /\ last' = <<"cbunreg", c, sc>>
   \/ /\ pick = "Q" /\ pick' = "none"
      /\ \E s \in {RandomElement(AllStates(NT))} : ApiCall(s) /\ last' = <<"api", s>>
   \/ /\ pick = "I" /\ pick' = "none"
@@ -215,7 +233,7 @@ SimSpec == SimInit /\ [][SimNext]_<<vars, pick, last>>
 
 def sim_files(sc):
     cfg = cfg_constants(sc) + 'SPECIFICATION SimSpec\nCHECK_DEADLOCK FALSE\n'
-    for i in INVARIANTS:
+    for i in (INV_BULK if sc['bulk'] else INVARIANTS):
         cfg += 'INVARIANT %s\n' % i
     return {'MCSim.tla': MCSIM, 'MCSim.cfg': cfg}
 
@@ -234,6 +252,11 @@ def ops_from_behaviour(path, rng, rich=True):
     for _, _, st in steps[1:]:
         last = st.get('last')
         if not isinstance(last, list) or not last or last[0] == 'skip':
+            continue
+        if last[0] in ('cbreg', 'cbunreg'):
+            ops.append(['cb_register' if last[0] == 'cbreg' else 'cb_unregister', last[1], last[2], 'state'])
+            if rng.random() < 0.2:        # another metric on the same scope is none of their business
+                ops.append(['cb_register', rng.choice(['A', 'B', 'W']), last[2], 'wait'])
             continue
         if last[0] == 'api':
             r = rng.random()
@@ -456,6 +479,79 @@ def enum_race(quick):
             yield (['t1', 't2'], ['p1'], {'t1': 'p1'},
                    [['notify', [['t1', fin], ['t2', 5]]], ['task_update', 't1', tgt, extras],
                     ['notify', [['t1', TD], ['t2', 6]]]])
+
+
+def enum_registry(quick):
+    '''the callback registry between the batches: several callback objects per
+       scope (all tasks, one task), the same object on several scopes, another
+       metric on the same scope, unregistration; per state and bulk dispatch.
+       Batches with skips, duplicates, several tasks, contradictory finals.'''
+    tasks = ['t1', 't2', 't3']
+    b1 = ['notify', [['t1', 2], ['t2', 1]]]
+    b2 = ['notify', [['t1', 5], ['t2', 5], ['t3', 2], ['t1', 5]]]
+    b3 = ['notify', [['t2', TD], ['t1', NT - 1], ['t3', TC]]]
+    b4 = ['notify', [['t1', TD], ['t2', TF], ['t3', TD]]]
+    R_ = lambda n, sc, m='state': ['cb_register', n, sc, m]
+    U_ = lambda n, sc, m='state': ['cb_unregister', n, sc, m]
+    plans = [
+        [R_('A', '*'), b1, R_('B', '*'), b2, b3, b4],                       # B must not silence A
+        [R_('A', 't1'), b1, R_('B', 't1'), b2, R_('C', 't1'), b3, b4],
+        [R_('A', 't1'), R_('A', 't2'), R_('A', 't3'), b1, b2, b3, b4],      # one object, several tasks
+        [R_('A', 't1'), R_('A', 't2'), b1, R_('B', '*'), b2, R_('B', 't2'), b3, b4],
+        [R_('A', '*'), R_('B', 't1'), b1, R_('W', 't1', 'wait'), R_('W', '*', 'wait'), b2, b3, b4],
+        [R_('A', '*'), R_('B', '*'), b1, U_('A', '*'), b2, R_('A', '*'), b3, U_('B', '*'), b4],
+        [R_('A', 't1'), R_('B', 't1'), b1, U_('A', 't1'), b2, R_('C', 't2'), R_('C', 't1'), b3, b4],
+        [R_('A', 't2'), b1, R_('A', 't2'), b2, R_('B', 't2'), R_('B', 't3'), b3, b4],   # re-registration
+        [R_('A', 'tx'), U_('A', '*'), U_('B', 't1'), b1, R_('A', '*'), b2, b3, b4],     # calls that raise
+    ]
+    orders = [list(range(4))] if quick else [list(range(4)), [1, 0, 2, 3]]
+    for plan in plans:
+        for bulk in (False, True):
+            yield (tasks, ['p1'], {}, list(plan), None, None, None, bulk)
+    # registration at every point of a history, for every scope
+    for k in range(4):
+        for sc in ('*', 't1', 't2'):
+            for bulk in (False, True):
+                hist = [R_('A', sc), b1, b2, b3, b4]
+                hist.insert(k + 1, R_('B', sc))
+                yield (tasks, ['p1'], {}, hist, None, None, None, bulk)
+
+
+def enum_gapfinal(quick):
+    '''the final notification of a pilot arrives over a gap: from every earlier
+       state to each of the three final states; its tasks are failed all the same'''
+    tasks = ['t1', 't2', 't3', 't4']
+    init  = {'t1': 'p1', 't2': 'p1', 't3': 'p2'}
+    for pre in range(NP):
+        for fin in (PD, PF, PC):
+            for how in ('steps', 'jump'):
+                ops = [['notify', [['t1', 10], ['t2', 3], ['t3', 10], ['t4', 2]]]]
+                if pre and how == 'steps':
+                    ops += [['pnotify', [['pilot', 'p1', s]]] for s in range(1, pre + 1)]
+                elif pre:
+                    ops += [['pnotify', [['pilot', 'p1', pre]]]]
+                ops += [['pnotify', [['pilot', 'p1', fin]]], ['notify', [['t3', 11]]],
+                        ['pnotify', [['pilot', 'p2', fin]]]]
+                yield (tasks, ['p1', 'p2'], init, ops)
+
+
+def enum_pregister(quick):
+    '''another thread registers a callback on the pilot while Pilot._update
+       dispatches its callbacks (k-th dispatch of the notification): all callbacks
+       registered earlier are served, the pilot's tasks are failed'''
+    tasks = ['t1', 't2', 't3']
+    init  = {'t1': 'p1', 't2': 'p1', 't3': 'p2'}
+    for pre in (0, 2, NP - 1):
+        for fin in (PD, PF, PC):
+            for k in (1, 2, 3):
+                ops = [['notify', [['t1', 10], ['t2', 3], ['t3', 10]]]]
+                if pre:
+                    ops.append(['pnotify', [['pilot', 'p1', pre]]])
+                ops += [['pnotify_race', [['pilot', 'p1', fin]], ['p1', k, ['pilot_register', 'p1', 'X']]],
+                        ['pnotify', [['pilot', 'p2', PF]]]]
+                yield (tasks, ['p1', 'p2'], init, ops)
+    yield (tasks, ['p1', 'p2'], init,
+           [['pilot_register', 'p1', 'Y'], ['pnotify', [['pilot', 'p1', PF]]]])
 
 
 def enum_api(quick):
@@ -720,6 +816,8 @@ def enum_c06(quick):
         yield case
     for case in enum_service(quick):
         yield case
+    for case in enum_registry(quick):
+        yield case
 
 
 def enum_c13(quick):
@@ -782,6 +880,10 @@ def enum_c13(quick):
         yield case
     for case in enum_appcb(quick):
         yield case
+    for case in enum_gapfinal(quick):
+        yield case
+    for case in enum_pregister(quick):
+        yield case
 
 
 def enum_c14(quick):
@@ -806,6 +908,10 @@ def enum_c14(quick):
                              [['pilot', 'p1', s], ['pilot', 'p2', x], ['pilot', 'px', x]]):
                     yield (['t1', 't2'], ['p1', 'p2'], init, head + [['pnotify', last]])
     for case in enum_docs():
+        yield case
+    for case in enum_gapfinal(quick):
+        yield case
+    for case in enum_pregister(quick):
         yield case
 
 
@@ -840,13 +946,25 @@ def random_case(rng, rich=True):
         k     = rng.randint(0, len(order))
         add   = [order[:k]] if k > 1 else list(order[:k])
         later = order[k:]
-    rig    = R.ClientRig(tasks, pilots, init, modes, add)   # scratch instance to follow the states
+    bulk   = rng.random() < 0.2       # bulk dispatch: registry, notifications, calls only
+    if bulk:
+        add, later = None, []
+    rig    = R.ClientRig(tasks, pilots, init, modes, add, None, bulk)   # scratch instance to follow the states
     ops    = []
     for _ in range(rng.randint(3, 8)):
         r = rng.random()
         tst = {t: R.tcode(rig.tm._tasks[t].state) for t in tasks}
         pst = {p: R.pcode(rig.pm._pilots[p].state) for p in pilots}
-        if later and rng.random() < 0.5:
+        if rng.random() < (0.35 if bulk else 0.08):
+            name = rng.choice(['A', 'B', 'C'])
+            sc   = rng.choice(['*'] + tasks)
+            op   = [rng.choice(['cb_register'] * 3 + ['cb_unregister']), name, sc,
+                    rng.choice(['state'] * 5 + ['wait'])]
+        elif bulk and r >= 0.50:
+            b = [[rng.choice(tasks + ['tx']), _pick_state(rng, tst.get(rng.choice(tasks), 0), NT)]
+                 for _ in range(rng.choice([1, 2, 3, 4]))]
+            op = ['notify', b]
+        elif later and rng.random() < 0.5:
             k  = rng.randint(1, len(later))
             op = ['add_pilots', later[0] if k == 1 and rng.random() < 0.5 else later[:k]]
             later = later[k:]
@@ -922,7 +1040,7 @@ def random_case(rng, rich=True):
         ops.append(op)
         rig.apply(op)
     rig.close()
-    return (tasks, pilots, init, ops, modes, add)
+    return (tasks, pilots, init, ops, modes, add, None, bulk)
 
 
 def dead_of(ops):
@@ -1003,6 +1121,9 @@ INTERRUPTED = 'pilot callback running while _update_tasks is under way'
 
 
 def classify(trace, clause):
+    if clause.startswith('C06.') and any(e['ev'] == 'CbRegistry' for e in trace['events']):
+        return 'callbacks registered / unregistered between notifications (%s dispatch)' \
+               % ('bulk' if trace.get('bulk') else 'per state')
     if clause == 'C06.TablesUntouched':
         return 'application call between notifications'
     if clause == 'C13.LockOrder':
@@ -1061,6 +1182,9 @@ def _nontrivial_keys(trace):
         elif e['ev'] == 'PilotFinal':
             keys.add(('F', tuple(sorted(tst.items())), e['pilot'],
                       tuple(sorted((u, e['tpost'][u]['pilot']) for u in tst))))
+        elif e['ev'] in ('CbRegistry', 'PilotRegister'):
+            keys.add((e['ev'], e.get('what'), e.get('name'), e.get('scope'), e['ret'], trace.get('bulk'),
+                      tuple(sorted((u, tuple(map(tuple, [r[:2] for r in o['regs']]))) for u, o in e['tpost'].items()))))
         elif e['ev'] in ('ApiCall', 'ServiceInfo', 'SubmitBegin', 'PilotCancel'):
             keys.add((e['ev'], tuple(sorted(tst.items())), str(e.get('name', e.get('uids', e.get('pilot')))),
                       e.get('info', ''), e['ret']))
@@ -1079,10 +1203,10 @@ def _check_traces(chk, cases, label):
        all of them), report; label: one string, or one per case'''
     pid    = chk.pid
     labels = [label] * len(cases) if isinstance(label, str) else label
-    cases  = [tuple(c) + (None, None, None)[:7 - len(c)] for c in cases]
+    cases  = [tuple(c) + (None, None, None, False)[len(c) - 4:] for c in cases]
     try:
-        traces = [R.run_ops(t, p, i, ops, iso=(pid == 'C06'), modes=m, add=a, late=la)
-                  for t, p, i, ops, m, a, la in cases]
+        traces = [R.run_ops(t, p, i, ops, iso=(pid == 'C06'), modes=m, add=a, late=la, bulk=bool(bu))
+                  for t, p, i, ops, m, a, la, bu in cases]
     except RuntimeError as e:
         if 'module tables' in str(e):
             raise Machinery(str(e))
@@ -1119,7 +1243,7 @@ def _check_traces(chk, cases, label):
                           {'rig': 'clientstate', 'tasks': case[0], 'pilots': case[1],
                            'init_bound': case[2], 'ops': case[3], 'modes': case[4] or {},
                            'add': 'default' if case[5] is None else case[5],
-                           'late': case[6] or [], 'errs': errs})
+                           'late': case[6] or [], 'bulk': bool(case[7]), 'errs': errs})
     return notes
 
 
@@ -1133,9 +1257,13 @@ def run(chk, tier, seed):
     rich  = pid != 'C14'       # task documents / faults that make as_dict raise (C13's space)
 
     # ---- 1. design model, exhaustive --------------------------------------------
-    for name in (sq if quick else sq + st_):
-        res = tlc.run('ClientState', 'ClientState', 'MC.cfg', workers=WORKERS, timeout=1500,
-                      extra_files=mc_files(SCENARIOS[name]))
+    names = sq if quick else sq + st_
+    from concurrent.futures import ThreadPoolExecutor
+    with ThreadPoolExecutor(max_workers=3) as pool:
+        runs = list(pool.map(lambda n: tlc.run('ClientState', 'ClientState', 'MC.cfg',
+                                               workers=4, timeout=1500,
+                                               extra_files=mc_files(SCENARIOS[n])), names))
+    for name, res in zip(names, runs):
         chk.add_tlc(res, 'exhaustive:' + name)
         if not res.ok:
             raise Machinery('design model ClientState violates %s in scenario %s '
@@ -1197,7 +1325,7 @@ def run(chk, tier, seed):
                     cases.append((list(sc['tasks']), list(sc['pilots']),
                                   {t: b for t, b in (bound or {}).items() if b != 'none'}, ops,
                                   {t: 'service' for t in sc['services']},
-                                  [] if sc['lateadd'] else None))
+                                  [] if sc['lateadd'] else None, None, sc['bulk']))
         finally:
             shutil.rmtree(dump, ignore_errors=True)
     if not cases:
@@ -1238,5 +1366,6 @@ def run(chk, tier, seed):
 def replay(chk, obj):
     add  = obj.get('add', 'default')
     case = (obj['tasks'], obj['pilots'], obj.get('init_bound', {}), obj['ops'],
-            obj.get('modes') or {}, None if add == 'default' else add, obj.get('late') or None)
+            obj.get('modes') or {}, None if add == 'default' else add, obj.get('late') or None,
+            bool(obj.get('bulk')))
     _check_traces(chk, [case], 'replay')
